@@ -192,7 +192,9 @@ pub fn build_guest(e: &mut Ent) -> Guest {
     let mut er = e.regfile();
     er[7] = lay.stack_top | if e.chance(1, 4) { e.upper_byte() } else { 0 };
     // main starts masked or unmasked
-    let prog = Prog { image, er, ccr: e.u8(), pc: lay.code, bus: e.bus_cfg() };
+    let (ccr, bus) = (e.u8(), e.bus_cfg());
+    image.extend(e.env_noise());
+    let prog = Prog { image, er, ccr, pc: lay.code, bus };
     Guest { prog, lay, vectors, nested, big }
 }
 
